@@ -21,7 +21,9 @@ from ..common import MachineryError
 PID = "C13"
 
 DIRS = ["", "d", "d.e", "d/e", "d/e/f"]
-NAMES = ["a", "a.b", "a.b.c", ".a", ".a.b", "a..b", "a.", "a b.c", "ü.x"]
+NAMES = ["a", "a.b", "a.b.c", ".a", ".a.b", "a..b", "a.", "a b.c", "ü.x",
+         "default", "default.x", "default.x.y", "a.do"]     # names that collide with rule-file names (default.do as a
+                                                              # target is its own rule: not a target, left out)
 PREFIXES = ["", "/r"]          # directly below the root, and below one more directory
 
 
@@ -252,7 +254,7 @@ def rb_plan(tier):
         k = sum(1 for c, inside in in_project_candidates(rel) if inside is not None)
         if k > kmax:
             continue
-        if tier == "quick" and n in (".a.b", "a.", "a..b") and d:
+        if tier == "quick" and n in (".a.b", "a.", "a..b", "a.do", "default.x.y") and d:
             continue          # quick: keep the odd names at the top level only
         sp = [("", rel)]
         if tier == "thorough":
@@ -303,13 +305,19 @@ def run_placement(job):
             if i not in inside and os.path.lexists(os.path.join(c["do_dir"], c["do_file"])):
                 res["machinery"] = f"stray script above the project: {c['do_dir']}/{c['do_file']}"
                 return res
-        placed = []
+        # a target called default.x has one file (default.x.do) at two places of the search order: the script is
+        # identified by the first position of its path, and "exists" is a fact about the path
+        cpath = [os.path.join(c["do_dir"], c["do_file"]) for c in cands]
+        first_of = {}
+        for i, pth in enumerate(cpath):
+            first_of.setdefault(pth, i)
+        present = set()
         for bit, i in enumerate(inside):
             if mask >> bit & 1:
-                c = cands[i]
-                with open(os.path.join(c["do_dir"], c["do_file"]), "w") as fh:
-                    fh.write(SCRIPT.format(id=i))
-                placed.append(i)
+                with open(cpath[i], "w") as fh:
+                    fh.write(SCRIPT.format(id=first_of[cpath[i]]))
+                present.add(cpath[i])
+        placed = [i for i in inside if cpath[i] in present]
         res["placed"] = placed
         chosen = placed[0] if placed else None
         env = common.base_env(bindir, home)
